@@ -105,18 +105,25 @@ def run_case(ctx, case):
     if m.closed:
         rng = np.random.default_rng(case["dseed"])
         for kind, n_el, dual_dim in (("n_face", m.n_face, "n_node"), ("n_node", m.n_node, "n_face")):
-            lead = [int(x) for x in rng.integers(1, 3, size=int(rng.integers(0, 2)))]
-            data = np.arange(int(np.prod(lead, dtype=int)) * n_el, dtype=float).reshape(tuple(lead) + (n_el,)) + 0.25
-            da = U.UxDataArray(data.copy(), dims=["t%d" % i for i in range(len(lead))] + [kind], uxgrid=g, name="q")
+            # any leading and trailing dimensions: the element dimension may sit anywhere
+            lead = [int(x) for x in rng.integers(1, 4, size=int(rng.integers(0, 3)))]
+            trail = [int(x) for x in rng.integers(2, 4, size=int(rng.integers(0, 2)))]
+            shape = tuple(lead) + (n_el,) + tuple(trail)
+            data = np.arange(int(np.prod(shape, dtype=int)), dtype=float).reshape(shape) + 0.25
+            ldims = ["t%d" % i for i in range(len(lead))]
+            tdims = ["lev%d" % i for i in range(len(trail))]
+            da = U.UxDataArray(data.copy(), dims=ldims + [kind] + tdims, uxgrid=g, name="q")
+            pos = "last" if not trail else ("first" if not lead else "middle")
             try:
                 r = da.get_dual()
             except Exception as e:
-                ctx.check("data", False, dict(sig0, kind=kind, exc=core.exc_sig(e)), {"exc": repr(e), "mesh": d})
+                ctx.check("data", False, dict(sig0, kind=kind, element_dim=pos, exc=core.exc_sig(e)), {"exc": repr(e), "mesh": d})
                 continue
-            ok = (isinstance(r, U.UxDataArray) and tuple(r.dims) == tuple(["t%d" % i for i in range(len(lead))] + [dual_dim])
+            ok = (isinstance(r, U.UxDataArray) and tuple(r.dims) == tuple(ldims + [dual_dim] + tdims)
                   and np.array_equal(np.asarray(r.values), data) and r.uxgrid is not None
                   and r.uxgrid.n_node == m.n_face and r.uxgrid.n_face == m.n_node and r.name == "q")
-            ctx.check("data", ok, dict(sig0, kind=kind), {"dims": list(r.dims), "mesh": d})
+            ctx.check("data", ok, dict(sig0, kind=kind, element_dim=pos), {"dims": list(r.dims), "want_dims": ldims + [dual_dim] + tdims, "mesh": d})
+            ctx.observe("data_element_dim_" + pos)
     if max_val >= 5 or not m.closed or snapped:
         ctx.mark_nontrivial()
     ctx.observe("meshes_" + ("closed" if m.closed else "partial"))
